@@ -171,3 +171,17 @@ Proof.
   - destruct e; inversion Hp; subst. exact H.
 Qed.
 End Slots.
+
+(* ---------- a table held in memory is the one-chunk stream of itself ---------- *)
+Theorem table_is_one_chunk_stream (order : list bname) (chunks : list (list (bname * Z))) :
+  Forall (fun c => c <> []) chunks -> contiguous bname (bkeys (concat chunks)) ->
+  grouped bname zlist_eqb (table_chunks chunks) = grouped bname zlist_eqb chunks
+  /\ multistream_table_trace order chunks = multistream_trace order chunks.
+Proof.
+  intros Hne Hc.
+  assert (G : grouped bname zlist_eqb (table_chunks chunks) = grouped bname zlist_eqb chunks).
+  { rewrite (grouped_chunk_invariant bname zlist_eqb zlist_eqb_eq chunks Hne Hc).
+    unfold table_chunks, grouped. simpl. rewrite app_nil_r.
+    rewrite (group_chunk_runs bname zlist_eqb zlist_eqb_eq) by exact Hc. apply (join_runs bname zlist_eqb zlist_eqb_eq). }
+  split; [exact G|]. unfold multistream_table_trace, multistream_trace. rewrite G. reflexivity.
+Qed.
